@@ -10,6 +10,11 @@ NOTE_COMMON = ("Trusted: Lean 4.33 kernel with axioms propext/Classical.choice/Q
                "rounding modes; third-party libraries, Rust std, cffi, md5, OS are trusted. ")
 
 CLAIMED = {
+    "C18": dict(
+        text="Lean theorems over a model of LCA_Database and the lineage utilities: (history_invariant / index_is_relation) for every history of accepted and refused insertions and downsamplings the inverted index is exactly the relation 'signature idx was inserted and holds h at the database's scaled'; get_lineage_assignments / get_identifiers_for_hashval return exactly the lineages / identifiers of the holders (assignments_exact, identifiers_exact); _signatures, including its 50-hash batching, rebuilds exactly the inserted sketches that are non-empty (reconstruct, reconstruct_exact); JSON save/load preserves every table and answer up to padding lineages with empty names (json_roundtrip, json_lineage_same_taxa); find_lca(build_tree(L)) is the unique solution of the LCA specification, independent of order and duplicates (find_lca_spec, lca_spec_unique, find_lca_set_only, the two prose halves lca_deepest_if_no_disagreement / lca_first_disagreement); summarize credits each hash to its LCA and every ancestor exactly once (aggregate_once, counts_eq); classify and pop_to_rank against their specs. Tied to the code by the lca correspondence stream (in-memory, JSON, SQLite forms, downsample_scaled, summarize/classify, both find_lca implementations) with an independent relation-based oracle, and by translator items (taxlist, NCBI_RANKS, SQL column orders, downsample comparison/threshold, batch constant, threshold comparisons, AST identity of the two find_lca/build_tree implementations).",
+        note=NOTE_COMMON + "Not proved: equivalence of the SQLite form (modelled and compared only; four of its behaviours are known findings), classify --majority tie-breaking, md5-based default identifiers of unnamed signatures. minhash.downsample is abstracted as 'hashes <= max_hash' (C01/C03). LCAs are computed on the taxa a lineage names (empty names skipped). Known findings: D9 (downsample_scaled drops the hash equal to max_hash; kernel-checked counterexample, patch proposed), D11 (sketches empty at the database's scaled counted but never yielded), C18.3-C18.8 (SQLite form: downsample is a no-op, lineages looked up by name, identifiers re-derived, KeyError on absent hash, signed hashvals; insert after JSON load fails).",
+        technique="Lean 4 invariant proof over all insertion/downsampling histories + trie induction for find_lca + sum bookkeeping for summarize; model/impl correspondence over generated histories with a relation oracle; translator for rank tables and comparison shapes",
+        ref="DESIGN.md section 5 C18"),
     "C20": dict(
         text="PARTIAL by nature. Lean theorems about the one hand-written binary reader that takes sizes from the file (Nodegraph::from_reader): it is a total function of the input, the memory it requests is bounded by the input length whatever the size fields say (alloc_bounded, for the allocation discipline the translator re-reads from the source on every run; the pre-repair pre-allocating discipline is proved unbounded), and it refuses zero-sized tables. Every mutated nodegraph file is also run through the reader model and compared with the real reader. Everything else (JSON/gzip/zip/sqlite/CSV decoders, native memory safety) is differential TESTING in crash-isolated workers (address-space limit, per-file timeout, post-failure sentinel computation) over mutated files of all 11 kinds; labelled as testing in the evidence.",
         note=NOTE_COMMON + "Memory safety of native code, third-party decoders and the allocator cannot be expressed in an executable model and are not claimed; a signal, timeout or damaged process state found by the isolated workers is reported with the file bytes as replay.",
